@@ -24,7 +24,7 @@ class C24(Monitor):
                     sid = (s.args or {}).get('sid')
                     self.poison[s.ep].add(sid if (s.exc['where'].startswith('stream') and sid is not None) else 'conn')
             return
-        if s.snap['closed'] or len(s.units) != 1 or (not s.ok and s.trailing >= 9) or s.quirk:
+        if s.snap['closed'] or not s.exact or s.quirk:
             return
         f = s.units[0]
         if f.type != C.ALTSVC or f.bad is not None or f.length > s.snap['mine'][C.S_MAX_FRAME_SIZE]:
